@@ -25,7 +25,7 @@ PROPS = ["wrap_ops_eq_bitvec", "wrap_ops_in_range", "shift_ops_eq_bitvec", "divf
          "varops_are_left_folds", "nary_methods_wrap", "nary_methods_are_left_folds", "nary_mod_not_fold_on_pinned",
          "chained_comparators_are_conjunctions", "chained_comparison_short_circuits", "poly_comparators_are_chains",
          "ieee_rounding_is_nearest_even", "ieee_ops_correctly_rounded", "ieee_floor_exact_and_ops_exact_when_representable",
-         "num_div_is_floor_of_rounded_quotient", "num_mod_over_ieee",
+         "num_div_is_floor_of_rounded_quotient", "num_mod_over_ieee", "num_rem_is_exact_fmod",
          "primitive_order_s64_u64_is_by_type", "string_operand_scanned", "string_digits_exact_or_rejected", "string_operands_every_entry",
          "string_operands_handwritten", "bitwise32_range_checks", "bitwise32_eq_bitvec", "num_div_is_floor_of_quotient",
          "num_mod_zero_is_dividend", "num_mod_floor_convention", "num_rem_is_fmod", "vm_number_handlers",
@@ -325,7 +325,7 @@ def run(ctx):
         "IEEE-754 arithmetic on two plain numbers: the model's own executable instance (Int64/Ieee.lean: exact rational result, rounded once to nearest-even; "
         "floor and fmod exact) is proved to meet the mathematical rounding rneQ (IeeeQ.lean) and is compared bit for bit with the hardware / libm results of the "
         "implementation on >= 10^5 operand pairs per run (NaN payloads canonicalised: a janet number holds one quiet NaN); that the CPU and libm implement "
-        "IEEE-754 is what this comparison tests, not a theorem. The NaN / infinity / signed-zero rules and fmod's value are part of the instance's definition (tested, not proved against a separate spec)",
+        "IEEE-754 is what this comparison tests, not a theorem. The NaN / infinity / signed-zero rules are part of the instance's definition (tested bit for bit, not proved against a separate spec)",
         "shift counts outside the operand width and signed left shifts that overflow are undefined in ISO C; modelled as the hardware does (count mod width, "
         "two's-complement result) and tested on the non-sanitized build; the property makes no claim there",
         "`bnot` of a number outside int32 converts an out-of-range double to int32 unchecked (ISO C undefined): no claim, not compared",
